@@ -220,6 +220,22 @@ class Extractor:
             inner = self.block(st.body, param_label)
             self.label = saved
             return inner
+        if isinstance(st, ast.For) and self.side == "read" and isinstance(st.iter, ast.Call) and isinstance(st.iter.func, ast.Attribute) \
+                and isinstance(st.iter.func.value, ast.Name) and st.iter.func.value.id == "self" and st.iter.func.attr in self.cls.methods \
+                and any(isinstance(y, (ast.Yield, ast.YieldFrom)) for y in ast.walk(self.cls.methods[st.iter.func.attr].node)) and st.iter.func.attr not in self.stack:
+            # the record loop written as `for id, size in self._records(fp):` - the generator reads what every record shares (the prelude), the body
+            # of the for statement holds the arms
+            g = self.cls.methods[st.iter.func.attr]
+            saved = self.label
+            self.stack.add(st.iter.func.attr)
+            try:
+                pre = self.block(g.node.body, param_label)
+            finally:
+                self.stack.discard(st.iter.func.attr)
+            self.label = "PRELUDE"
+            inner = self.block(st.body, param_label)
+            self.label = saved
+            return _add(pre, inner)
         if isinstance(st, (ast.For, ast.While)):
             head = self.expr(st.iter) if isinstance(st, ast.For) else {}
             saved = self.label
